@@ -468,23 +468,28 @@ func init() {
 		"strings.TrimSpace":              strFn1(func(a string) Value { return cStr(strings.TrimSpace(a)) }),
 		"strings.Join": func(m *M, fn *ssa.Function, a []Value) Value {
 			sl := m.force(a[0]).(Slice)
-			sep, ok := concStr(m, a[1])
-			if !ok {
-				panic(engineErr("strings.Join with symbolic separator"))
-			}
-			var parts []string
-			allConc := true
-			for _, e := range m.sliceElems(sl) {
-				s, ok := concStr(m, e)
-				if !ok {
-					allConc = false
+			sep := m.force(a[1]).(Str)
+			var r Str
+			r = cStr("")
+			for i, e := range m.sliceElems(sl) {
+				if i > 0 {
+					r = m.ropeConcat(r, sep)
 				}
-				parts = append(parts, s)
+				r = m.ropeConcat(r, m.force(e).(Str))
 			}
-			if allConc {
-				return cStr(strings.Join(parts, sep))
+			return r
+		},
+		"strings.Cut": func(m *M, fn *ssa.Function, a []Value) Value {
+			s := m.force(a[0]).(Str)
+			sep, ok := concStr(m, a[1])
+			if !ok || len(sep) != 1 {
+				panic(engineErr("strings.Cut with a separator other than one concrete byte"))
 			}
-			return m.atomStr(fmt.Sprintf("join#%d", m.seq("join")))
+			if cs, isC := concStr(m, s); isC {
+				b, af, f := strings.Cut(cs, sep)
+				return Tuple{cStr(b), cStr(af), cBool(f)}
+			}
+			return m.ropeCut(s, sep)
 		},
 		"(encoding/asn1.ObjectIdentifier).String": func(m *M, fn *ssa.Function, a []Value) Value {
 			sl := m.force(a[0]).(Slice)
@@ -545,6 +550,26 @@ func init() {
 				return cI(int(v.v & 0xFFFF))
 			}
 			return nInt(Int{w: 64, sgn: true, t: fmt.Sprintf("(bvand %s (_ bv65535 64))", v.t)})
+		},
+		"math/big.NewInt": func(m *M, fn *ssa.Function, a []Value) Value {
+			o := m.newObj(m.convert(a[0], types.Typ[types.Int64], types.Typ[types.Uint64], 0))
+			o.name = "big"
+			return Ptr{obj: o}
+		},
+		"(*math/big.Int).SetBytes": func(m *M, fn *ssa.Function, a []Value) Value {
+			p := m.force(a[0]).(Ptr)
+			b := m.force(a[1]).(Slice)
+			var v Int
+			switch {
+			case b.abs:
+				v = Int{w: 64, t: b.labT} // the number is identified with the bytes it was read from
+			case b.isNil || b.ln == 0:
+				v = cInt(64, false, 0)
+			default:
+				v = Int{w: 64, t: sliceAsStrLabel(m, b)}
+			}
+			*m.slot(p) = v
+			return p
 		},
 		"(*math/big.Int).String": func(m *M, fn *ssa.Function, a []Value) Value {
 			p := m.force(a[0]).(Ptr)
@@ -729,4 +754,98 @@ func (m *M) syncMap(v Value) *MapObj {
 	o.ghost = p.obj.ghost
 	m.lazyMemo[key] = Ptr{obj: o}
 	return mo
+}
+
+// ---- ropes: a string built by concatenating concrete pieces and atoms remembers its pieces (per path), so that
+// strings.Cut can take it apart again. Whether an atom contains the separator is an uninterpreted predicate.
+func (m *M) ropeParts(s Str) []Str {
+	if s.conc {
+		if s.s == "" {
+			return nil
+		}
+		return []Str{s}
+	}
+	if s.isArr {
+		panic(engineErr("rope of array-form string"))
+	}
+	if v, ok := m.lazyMemo["rope:"+s.labT]; ok {
+		return v.([]Str)
+	}
+	return []Str{s}
+}
+
+func (m *M) ropeOf(parts []Str) Str {
+	// merge adjacent concrete pieces
+	var ps []Str
+	for _, p := range parts {
+		if p.conc && p.s == "" {
+			continue
+		}
+		if p.conc && len(ps) > 0 && ps[len(ps)-1].conc {
+			ps[len(ps)-1] = cStr(ps[len(ps)-1].s + p.s)
+			continue
+		}
+		ps = append(ps, p)
+	}
+	switch len(ps) {
+	case 0:
+		return cStr("")
+	case 1:
+		return ps[0]
+	}
+	r := ps[0]
+	for _, p := range ps[1:] {
+		r = m.strConcat(r, p)
+	}
+	m.lazyMemo["rope:"+r.labT] = ps
+	return r
+}
+
+func (m *M) ropeConcat(a, b Str) Str {
+	return m.ropeOf(append(append([]Str{}, m.ropeParts(a)...), m.ropeParts(b)...))
+}
+
+func (m *M) hasSep(atom Str, sep string) Bool {
+	key := "hassep:" + sep + ":" + atom.labT
+	if v, ok := m.lazyMemo[key]; ok {
+		return v.(Bool)
+	}
+	b := m.symBool(fmt.Sprintf("contains%q.%d", sep, m.seq("hassep")))
+	// an empty string contains nothing
+	m.assume(fmt.Sprintf("(=> (= %s (_ bv0 64)) (not %s))", atom.lenT, b.t))
+	m.lazyMemo[key] = b
+	m.tracef("%s <=> %s contains %q", b.t, atom.labT, sep)
+	return b
+}
+
+func (m *M) ropeCut(s Str, sep string) Value {
+	parts := m.ropeParts(s)
+	for i, p := range parts {
+		if p.conc {
+			if j := strings.Index(p.s, sep); j >= 0 {
+				before := append(append([]Str{}, parts[:i]...), cStr(p.s[:j]))
+				after := append([]Str{cStr(p.s[j+1:])}, parts[i+1:]...)
+				return Tuple{m.ropeOf(before), m.ropeOf(after), cBool(true)}
+			}
+			continue
+		}
+		if m.branch(m.hasSep(p, sep)) {
+			// cut inside the atom: the two halves are fresh atoms (the second may contain further separators)
+			n := m.seq("cutpiece")
+			pre, post := m.atomStr(fmt.Sprintf("cut%d.before", n)), m.atomStr(fmt.Sprintf("cut%d.after", n))
+			m.assume(fmt.Sprintf("(not %s)", m.hasSep(pre, sep).t))
+			before := append(append([]Str{}, parts[:i]...), pre)
+			after := append([]Str{post}, parts[i+1:]...)
+			return Tuple{m.ropeOf(before), m.ropeOf(after), cBool(true)}
+		}
+	}
+	return Tuple{s, cStr(""), cBool(false)}
+}
+
+func sliceAsStrLabel(m *M, b Slice) string {
+	s := sliceAsStr(m, b)
+	if s.conc {
+		return fmt.Sprintf("(_ bv%d 64)", labelOf(s.s))
+	}
+	panic(engineErr("big.Int.SetBytes on array-form bytes"))
 }
